@@ -149,6 +149,10 @@ pub fn generate(ctx: &mut Ctx) {
             ctx.case("wf:zone", &vx::show(&Value::DateTime(DateTime::from(dt))));
         }
     }
+    // the seconds around daylight-saving transitions, incl. the repeated local hour
+    for dt in gen::dst_edge_datetimes() {
+        ctx.case("wf:dst", &vx::show(&Value::DateTime(dt)));
+    }
     let total = ctx.n(4000, 200_000);
     for i in 0..total {
         let mut rng = ctx.rng.fork();
